@@ -107,7 +107,7 @@ Val gen_tree(vf::Src& s, int depth, bool typedKeys) {
 bool has_nil(const Val& v) { if (v.t == RT::Nil) return true; for (auto& e : v.arr) if (has_nil(e)) return true; for (auto& e : v.map) if (has_nil(e.second)) return true; return false; }
 bool marked_not_loaded(const Val& v) { if (v.fmt == 0xc1) return true; for (auto& e : v.arr) if (marked_not_loaded(e)) return true; for (auto& e : v.map) if (marked_not_loaded(e.second)) return true; return false; }
 
-Cfg gen_read_cfg(vf::Src& s) { Cfg c; c.stream = s.coin(); c.streamKind = c.stream ? static_cast<int>(s.draw(2)) : 0; c.chunk = 1 + s.draw(20); return c; }
+Cfg gen_read_cfg(vf::Src& s) { Cfg c; c.stream = s.coin(); c.streamKind = c.stream ? gen_stream_kind(s, true) : 0; c.chunk = 1 + s.draw(20); return c; }
 
 } // namespace
 
